@@ -42,8 +42,67 @@ def strip_scalar_fallback(e):
     return e, False
 
 
+VIEWS = ("moveaxis", "reshape", "transpose", "swapaxes", "ravel", "squeeze", "asarray", "view", "T", "real", "imag")
+MUTATING = ("sort", "fill", "put", "itemset", "resize", "partition", "setfield", "setflags", "byteswap")
+
+
+def check_no_inplace(ctx):
+    """R08.6: tensors are values: no method of Tensor writes into the array of an operand, directly, through an alias / view of it, or through `out=`"""
+    m = ctx.model
+    c = m.cls(TEN + ".Tensor")
+    n = 0
+    for name, (fn, kind) in sorted(c.methods.items()):
+        if not isinstance(fn, ast.FunctionDef) or name == "__init__":
+            continue
+        n += 1
+        params = {a.arg for a in fn.args.args}
+        # names that may share memory with an operand's array: X.array, views of them, plain copies of such names
+        shared = set()
+
+        def may_share(e):
+            if isinstance(e, ast.Attribute) and e.attr in ("array", "_array") and isinstance(e.value, ast.Name) and e.value.id in params:
+                return True
+            if isinstance(e, ast.Name) and e.id in shared:
+                return True
+            if isinstance(e, ast.Attribute) and e.attr in VIEWS:
+                return may_share(e.value)
+            if isinstance(e, ast.Subscript):
+                return may_share(e.value)
+            if isinstance(e, ast.Call):
+                f = e.func
+                if isinstance(f, ast.Attribute) and f.attr in VIEWS:
+                    return may_share(f.value) or any(may_share(a) for a in e.args[:1])
+                return False
+            if isinstance(e, ast.IfExp):
+                return may_share(e.body) or may_share(e.orelse)
+            return False
+        for _ in range(3):
+            for st in ast.walk(fn):
+                if isinstance(st, ast.Assign) and len(st.targets) == 1 and isinstance(st.targets[0], ast.Name) and may_share(st.value):
+                    shared.add(st.targets[0].id)
+        hits = []
+        for x in ast.walk(fn):
+            if isinstance(x, ast.Call):
+                for k in x.keywords:
+                    if k.arg == "out" and may_share(k.value):
+                        hits.append("`%s` writes its result into %s" % (ast.unparse(x)[:60], ast.unparse(k.value)))
+                if isinstance(x.func, ast.Attribute) and x.func.attr in MUTATING and may_share(x.func.value):
+                    hits.append("`%s` changes %s in place" % (ast.unparse(x)[:60], ast.unparse(x.func.value)))
+            elif isinstance(x, ast.AugAssign) and (may_share(x.target) or (isinstance(x.target, ast.Subscript) and may_share(x.target.value))):
+                hits.append("`%s` updates %s in place" % (ast.unparse(x)[:60], ast.unparse(x.target)))
+            elif isinstance(x, ast.Assign):
+                for t in x.targets:
+                    if isinstance(t, ast.Subscript) and may_share(t.value):
+                        hits.append("`%s` writes into %s" % (ast.unparse(x)[:60], ast.unparse(t.value)))
+        ctx.ob("R08.6", "%s.Tensor.%s:operands-untouched" % (TEN, name), not hits, found=hits[:2] or "no write into an operand's array (aliases and views followed: %s)" % (sorted(shared) or "none"),
+               required="the arrays of self / other are only read: a tensor used again after the operation is the same matrix", mod=TEN, node=fn, sig="inplace", trivial=not shared)
+    ctx.need(n >= 15, "fewer than 15 methods of Tensor scanned for in-place updates (%d)" % n)
+
+
 def check(ctx):
     m = ctx.model
+    ctx.rule("R08.6", "tensors are values: no method writes into an operand's array (directly, through a view or alias, or through out=)")
+    ctx.attempt(check_no_inplace, ctx)
     ctx.rule("R08.1", "then: refused unless cod == dom; contracts exactly |self.cod| axes; result layout [self.dom | other.cod]")
     ctx.rule("R08.2", "tensor: outer product [d1 c1 d2 c2] re-ordered by a bijection to [d1 d2 c1 c2]")
     ctx.rule("R08.3", "dagger: [d c] -> [c d], conjugated, typed cod -> dom")
